@@ -369,6 +369,51 @@ def gross_net_witness(rec, tmp):
     shutil.rmtree(root, ignore_errors=True)
 
 
+def judge_symlinked_config(rec, rnd, tmp, k):
+    """Two years share one config folder through a symbolic link (2025/config -> ../2024/config), each year has its own data/: every command
+    given 2025/config reads 2025's statements, so discover's Unknown list is the one `up` leaves for 2025."""
+    root = os.path.join(tmp, 'sl%d' % k)
+    for d in ('2024/config', '2024/data', '2025/data'):
+        os.makedirs(os.path.join(root, d))
+    with open(os.path.join(root, '2024', 'config', 'settings.yaml'), 'w') as f:
+        f.write('year: 2025\nmerchants_file: config/merchants.rules\ndata_sources:\n  - name: Card\n    file: data/card.csv\n    format: "{date:%Y-%m-%d},{description},{amount}"\n')
+    with open(os.path.join(root, '2024', 'config', 'merchants.rules'), 'w') as f:
+        f.write('[Netflix]\nmatch: contains("NETFLIX")\ncategory: Subs\n')
+    with open(os.path.join(root, '2024', 'data', 'card.csv'), 'w') as f:
+        f.write('Date,Description,Amount\n' + ''.join('2024-0%d-11,OLD TOWN BAKERY,8.25\n' % m for m in (1, 2, 3)))
+    new = [('ZZZ HARDWARE STORE', 2), ('PEAK CLIMBING GYM', 1), ('NETFLIX.COM', 1)]
+    with open(os.path.join(root, '2025', 'data', 'card.csv'), 'w') as f:
+        f.write('Date,Description,Amount\n' + ''.join('2025-01-%02d,%s,%d.40\n' % (i + 1, d, 30 + i) for i, (d, n) in enumerate(new) for _ in range(n)))
+    os.symlink(os.path.join('..', '2024', 'config'), os.path.join(root, '2025', 'config'))
+    cwd = os.path.join(root, '2025')
+    how = rnd.choice(['relative', 'absolute'])
+    cfg = 'config' if how == 'relative' else os.path.join(root, '2025', 'config')
+    pu = B.tally(cwd, 'up', cfg, '--format', 'json', '-v')
+    pd = B.tally(cwd, 'discover', cfg, '--format', 'json', '-n', '0')
+    rec.count('cli_runs', 2)
+    rec.case()
+    case = {'kind': 'symlinked-config', 'how': how}
+    try:
+        U = B.json_from_stdout(pu.stdout)
+        D = json.loads(pd.stdout[pd.stdout.index('['):]) if 'No unknown transactions found' not in pd.stdout else []
+        up_unknown = Counter()
+        for m in U['merchants']:
+            if m['category'] == 'Unknown':
+                for d, n in (m.get('raw_descriptions') or {}).items():
+                    up_unknown[d] += n
+        disc = Counter({x['raw_description']: x['count'] for x in D})
+        rec.count('symlinked_config_checks')
+        if disc != up_unknown:
+            rec.violation('discover-unknown-list-differs:symlinked-config', f'config folder reached through a symbolic link ({how} path): discover lists {dict(disc)}, '
+                          f'up leaves Unknown {dict(up_unknown)}', case)
+        if up_unknown != Counter({'ZZZ HARDWARE STORE': 2, 'PEAK CLIMBING GYM': 1}):
+            rec.violation('up-reads-another-years-data:symlinked-config', f'up leaves Unknown {dict(up_unknown)}', case)
+    except Exception as e:
+        rec.violation('symlinked-config-run-fails', f'{type(e).__name__}: {e}: up exit {pu.returncode} {pu.stderr[-150:]!r}; discover exit {pd.returncode} {pd.stderr[-150:]!r}', case)
+    finally:
+        shutil.rmtree(root, ignore_errors=True)
+
+
 def judge_probe(rec, rnd, tmp, k):
     rf = probe_rulefile(rnd)
     mode = rnd.choice(['first_match', 'first_match', 'most_specific'])
@@ -434,6 +479,7 @@ def run(rec, shard, nshards, t):
                 judge_probe(rec, rnd, tmp, k * 10 + j)
             judge_probe_csv(rec, rnd, tmp, k)
             judge_discover_text(rec, rnd, tmp, k)
+            judge_symlinked_config(rec, rnd, tmp, k)
         if shard == 0:
             rec.sample({'probe_rules': R.render(probe_rulefile(rnd))[:500]})
     finally:
@@ -454,5 +500,6 @@ def replay(rec, case):
                 judge_probe(rec, rnd, tmp, k * 10 + j)
             judge_probe_csv(rec, rnd, tmp, k)
             judge_discover_text(rec, rnd, tmp, k)
+            judge_symlinked_config(rec, rnd, tmp, k)
     finally:
         shutil.rmtree(tmp, ignore_errors=True)
